@@ -55,6 +55,23 @@ def points(rec):
             ra = np.full(n, float(rec.get("line_ra", 0.0)))
             dec = rec["cdec"] + g.uniform(-rec["crad"], rec["crad"], n)
             dec = np.clip(dec, -90, 90)
+    elif k == "shift":
+        # the points of another set moved ALONG THEIR PARALLEL (same declination) by the longitude difference that
+        # makes the separation `rho`: for a given separation this is where the longitude difference is largest,
+        # 2 asin(sin(rho/2) / cos(dec)) -- more than rho / cos(dec)
+        bra, bdec = points(rec["of"])
+        bra, bdec = bra[:n], bdec[:n]
+        n = bra.size
+        rho = rec["rho"] * g.uniform(0.985, 0.9999, n) if n else np.zeros(0)
+        s_ = np.sin(np.radians(rho) / 2.0) / np.maximum(np.cos(np.radians(bdec)), 1e-300)
+        ok = s_ < 1.0
+        dal = np.degrees(2.0 * np.arcsin(np.clip(s_, 0.0, 1.0)))
+        ra = np.where(ok, bra + rec.get("sign", 1) * dal, bra)
+        dec = bdec.copy()
+        if n and not ok.all():
+            ra2, dec2 = offset(bra, bdec, rho, np.full(n, np.pi / 2 * rec.get("sign", 1)))
+            ra = np.where(ok, ra, ra2)
+            dec = np.where(ok, dec, dec2)
     else:
         raise ValueError(k)
     if rec.get("anti") and n > 1:
@@ -182,6 +199,9 @@ def plan(S, prop, mode, tier, avoid):
                 rad = 1e-6              # the quantifier: radii 0 and 1e-6 .. 180 degrees
             radii.append(rad)
             q = base if chance(r, 0.2) else draw_set(r, 60, region=base)
+            if rad > 0 and base["n"] > 0 and chance(r, 0.08):
+                q = {"kind": "shift", "of": base, "n": min(base["n"], r.randrange(1, 30)), "seed": r.randrange(1 << 30),
+                     "dups": False, "rho": rad, "sign": pick(r, [1, -1])}
             op = {"k": "match", "m": m, "q": q, "self": q is base, "radius": rad,
                   "perpoint": chance(r, 0.25) and not (0.0 < rad < 5e-6), "rseed": r.randrange(1 << 30),
                   "maxmatch": wpick(r, [(-1, 3), (0, 2), (1, 3), (2, 2), (r.randrange(3, 8), 1), (1000, 1)]),
@@ -239,6 +259,23 @@ def plan(S, prop, mode, tier, avoid):
             ops[0]["pra"] = present.draw(r, allow_convert=False)
             ops[0]["pdec"] = present.draw(r, allow_convert=False)
         callers.append(ops)
+    hg = S.py("hugecover")
+    if prop == "C12" and chance(hg, 0.002):
+        # the expensive corner of (radius, depth): one search circle that covers tens of millions of leaf triangles (about
+        # 2 s and 400 MB on the unchanged tree), against a set dense enough that thousands of partners lie inside
+        depth, lo, hi = pick(hg, [(12, 42.0, 70.0), (13, 20.6, 30.0), (11, 92.0, 130.0), (12, 42.0, 50.0)])
+        rad = round(hg.uniform(lo, hi), 3)
+        cra, cdec = round(hg.uniform(0, 360), 4), round(math.degrees(math.asin(hg.uniform(-0.95, 0.95))), 4)
+        big = {"kind": "cap", "n": hg.randrange(15000, 30000), "seed": hg.randrange(1 << 30), "dups": False,
+               "cra": cra, "cdec": cdec, "crad": min(rad * 1.15, 179.0)}
+        c = ncallers
+        ncallers += 1
+        callers.append([
+            {"k": "build", "m": "m%d" % c, "set": big, "depth": depth, "depth2": hg.randrange(3, 9), "c": c},
+            {"k": "match", "m": "m%d" % c, "q": {"kind": "cap", "n": 1, "seed": hg.randrange(1 << 30), "dups": False,
+                                                "cra": cra, "cdec": cdec, "crad": 0.5},
+             "self": False, "radius": rad, "perpoint": False, "rseed": 1, "maxmatch": -1, "sink": "mem",
+             "path": "c%d_p0.txt" % c, "also": ["depth2"], "scalar_q": False, "c": c, "hugecover": True}])
     sched = S.py("schedule")
     idx = [0] * ncallers
     flat = []
@@ -475,6 +512,8 @@ def do_match(run, op, M, htm, root, judge, c15):
     pstate = "absent" if not os.path.exists(path) else "present"
     run.states.add(st)
     run.trans.add("%s|match|mm=%s|r=%s|sink=%s:%s" % (st, feats["maxmatch"], feats["rclass"], sink, pstate if sink == "file" else ""))
+    if op.get("hugecover"):
+        run.fault("search_circle_covers_millions_of_leaves")
     if m["ncalls"] > 0:
         run.fault("matcher_reused")
     if m["last"] == "rejected":
